@@ -1184,4 +1184,76 @@ theorem readRecordT_eq (bact : Bool) (len : Int) (circ : Bool) (bios : List Bio)
   unfold readRecordT readRecord
   rw [foldlM_readStepT bact bios _ h]
 
+/-! ### the clean-up of `misc_feature` locations never reorders exons -/
+
+theorem insertBySizeDesc_mem (x : Part) : ∀ (l : List Part) (y : Part), y ∈ insertBySizeDesc x l → y = x ∨ y ∈ l
+  | [], y, h => by simp [insertBySizeDesc] at h; exact Or.inl h
+  | z :: zs, y, h => by
+    simp only [insertBySizeDesc] at h
+    split at h
+    · simp only [List.mem_cons] at h ⊢
+      rcases h with e | e | e
+      · exact Or.inl e
+      · exact Or.inr (Or.inl e)
+      · exact Or.inr (Or.inr e)
+    · simp only [List.mem_cons] at h ⊢
+      rcases h with e | e
+      · exact Or.inr (Or.inl e)
+      · rcases insertBySizeDesc_mem x zs y e with e' | e'
+        · exact Or.inl e'
+        · exact Or.inr (Or.inr e')
+
+theorem sortBySizeDesc_mem_aux : ∀ (l acc : List Part) (y : Part),
+    y ∈ l.foldl (fun acc x => insertBySizeDesc x acc) acc → y ∈ l ∨ y ∈ acc
+  | [], _, _, h => Or.inr h
+  | x :: rest, acc, y, h => by
+    rcases sortBySizeDesc_mem_aux rest (insertBySizeDesc x acc) y h with e | e
+    · exact Or.inl (List.mem_cons_of_mem _ e)
+    · rcases insertBySizeDesc_mem x acc y e with e' | e'
+      · exact Or.inl (by simp [e'])
+      · exact Or.inr e'
+
+theorem sortBySizeDesc_mem (l : List Part) (y : Part) (h : y ∈ sortBySizeDesc l) : y ∈ l := by
+  rcases sortBySizeDesc_mem_aux l.reverse [] y h with e | e
+  · simpa using e
+  · cases e
+
+theorem kept_mem_aux : ∀ (l acc : List Part) (y : Part),
+    y ∈ l.foldl (fun (acc : List Part) p => if acc.any (partContains · p) then acc else acc ++ [p]) acc → y ∈ l ∨ y ∈ acc
+  | [], _, _, h => Or.inr h
+  | x :: rest, acc, y, h => by
+    simp only [List.foldl_cons] at h
+    rcases kept_mem_aux rest _ y h with e | e
+    · exact Or.inl (List.mem_cons_of_mem _ e)
+    · split at e
+      · exact Or.inr e
+      · rcases List.mem_append.1 e with e' | e'
+        · exact Or.inr e'
+        · exact Or.inl (by simp at e'; simp [e'])
+
+/-- `remove_redundant_exons` keeps the remaining exons in the order they had -/
+theorem removeRedundantExons_sublist (l : Loc) : (removeRedundantExons l).parts.Sublist l.parts := by
+  cases l with
+  | simple p => exact List.Sublist.refl _
+  | compound ps =>
+    simp only [removeRedundantExons]
+    split
+    · rename_i p hk
+      have hp : p ∈ ps := by
+        have : p ∈ (sortBySizeDesc ps).foldl (fun (acc : List Part) p => if acc.any (partContains · p) then acc else acc ++ [p]) [] := by
+          rw [hk]; simp
+        rcases kept_mem_aux _ [] p this with e | e
+        · exact sortBySizeDesc_mem ps p e
+        · cases e
+      simpa [Loc.parts] using hp
+    · exact List.filter_sublist
+
+/-- the clean-up `Record.from_biopython` applies to `misc_feature` locations only ever drops exons: what is left is in
+    the order it was written in -/
+theorem prefilter_sublist (b : Bio) : (prefilter b).loc.parts.Sublist b.loc.parts := by
+  unfold prefilter
+  split
+  · exact removeRedundantExons_sublist b.loc
+  · exact List.Sublist.refl _
+
 end ASV.Serial
